@@ -387,6 +387,8 @@ func init() {
 				}
 				if k != "bridge" {
 					out = append(out, c10scenario(k, 4, 2, false, false, c10churnOps))
+					// the same churn while a second thread is inside Read (anywhere between its entry and its wait)
+					out = append(out, c10scenario(k, 2, 2, true, false, c10churnOps))
 				}
 				if strings.HasPrefix(k, "vnet") {
 					out = append(out, c10scenario(k, 4, 0, false, true))
